@@ -36,6 +36,7 @@ func Replay(path string) error {
 			Uniform  string                       `json:"uniform_balance"`
 			Postings []string                     `json:"postings"`
 			Force    bool                         `json:"force"`
+			Executor string                       `json:"executor"` // C25: "sql-store" | "in-memory-store"
 			// C27 histories: the executions to run, in order, on one cached runtime
 			History []struct {
 				Vars      map[string]string            `json:"vars"`
@@ -87,6 +88,17 @@ func Replay(path string) error {
 			return nil
 		}
 		fmt.Println(core.Plain)
+		if rp.Executor == "sql-store" {
+			// the real ledger on pgsim, accounts funded by an earlier transaction (see c25SQL)
+			ba, bb := env.Balance("a", assetMain).Int64(), env.Balance("a", assetOther).Int64()
+			sql, err := newC25SQL(context.Background(), []int64{ba, bb})
+			if err != nil {
+				return err
+			}
+			ans := sql.exec(core, ba, bb)
+			fmt.Printf("real ledger on pgsim: engine error=%v err=%v returned=%v transactions added=%d read back=%v\n", ans.engineErr, ans.err, ans.returned, ans.added, ans.stored)
+			return nil
+		}
 		rt, err := ledgercontroller.NewDefaultNumscriptParser().Parse(core.Plain)
 		if err != nil {
 			fmt.Println("Parse error:", err)
@@ -163,6 +175,20 @@ func Replay(path string) error {
 			res.Stage, res.Err, res.Panic, res.PanicAt, postingsString(res.Postings), balString(res.Balances), res.TxMeta, res.AccMeta)
 		// state that outlives the run (C22:global-state:*)
 		fmt.Printf("  after the run: package-level values damaged=%v compiled program changed=%v\n", globalStateDamage(), programFingerprint(prog) != fp)
+		if doc.Property == "C27" {
+			// the adapter, under every logger configuration, each execution with its deadline
+			for _, a := range c27ExecAdapter(prog, c27LoggerContexts(), mkStore, vars) {
+				switch {
+				case !a.Answered:
+					fmt.Printf("adapter, context with %s: NO ANSWER within %s\n", a.Logger, c27AnswerDeadline)
+				case a.Panic != nil:
+					fmt.Printf("adapter, context with %s: PANIC %v at %s\n", a.Logger, a.Panic, a.Site)
+				default:
+					class, out := c27AdapterOutcome(a.Res, a.Err)
+					fmt.Printf("adapter, context with %s: %s %s\n", a.Logger, class, out)
+				}
+			}
+		}
 	}()
 	if doc.Property == "C26" {
 		func() {
